@@ -769,6 +769,9 @@ class Sort(EnvironmentFilter):
 
         first, interactions = peek_first(interactions)
         is_sparse           = isinstance(first['context'],primitives.Sparse)
+        is_scalar           = not isinstance(first['context'],(primitives.Sparse,primitives.Dense))
+
+        if is_scalar: full_sorter = lambda interaction: (interaction['context'],)
 
         sorter = full_sorter if not self._keys else dict_sorter if is_sparse else list_sorter
         yield from sorted(interactions, key=sorter)
